@@ -163,7 +163,7 @@ def star_body(units, n_in, want, shared_number=False, two_pars_one_pair=False, s
             ctot = 0.0
             for c in cflows:
                 ctot = ctot + c
-            if env.symbolic:
+            if env.cutting:
                 a._cached_outflow = ctot
                 env.assume(env.le(ctot, x, 0), "cut: recorded outflow <= stock (claim G_not_overdrawn)")
             cin = []
@@ -176,7 +176,7 @@ def star_body(units, n_in, want, shared_number=False, two_pars_one_pair=False, s
                 l = a2.outlinks[0]
                 c2 = env.cut(l.vals[0], "flow_a2", [nn, lambda v: env.le(v, x2, 0)])
                 l.vals[0] = c2
-                if env.symbolic:
+                if env.cutting:
                     a2._cached_outflow = c2
             m._t_index = 1
             m.update_comps()
